@@ -321,3 +321,116 @@ class QUnit(Unit):
         params = extra_params + (" (st : %s) " % self.state_type if uses_state else "") + " ".join("(%s : Q)" % a for a in args)
         rtype = {"value": "Q", "setter": self.state_type}[kind]
         return "Definition %s %s : %s :=\n  %s.\n" % (coq_name, params, rtype, self.block(list(fn.body), env, kind))
+
+
+class QListUnit(QUnit):
+    """Q dialect extended with the list idioms of the composite pools:
+         sum(E for x in self.children)        qsum (map (fun x => [E]) CHILDREN)
+         len(self.children)                   qlen CHILDREN
+         getattr(x, self._weight)             weight w x                 (x an iteration variable)
+         x.supply / x.utilisation / ...       record projections of the iteration variable
+         a / b                                only under `try: ... except ZeroDivisionError: ...`:
+                                              if Qeqb [b] 0 then [handler] else [a] / [b]
+         A if T else B, float literals 0.0 / 1.0
+         for x in self.children: <x.demand = V  |  try: x.demand = V1 except ZeroDivisionError: x.demand = V2>
+                                              the new children list  map (fun x => set_cdemand x V) CHILDREN
+       CHILDREN is the Gallina expression for self.children given by the unit."""
+
+    def __init__(self, children, child_fields, weight_attr, **kw):
+        super().__init__(**kw)
+        self.children = children            # e.g. "cs"
+        self.child_fields = child_fields    # python attribute -> projection name
+        self.weight_attr = weight_attr      # python attribute holding the weight selector, e.g. "self._weight"
+        self.itervars = set()
+
+    def is_children(self, e):
+        return isinstance(e, ast.Attribute) and attr_path(e) == "self.children"
+
+    def expr(self, e, env):
+        if isinstance(e, ast.Constant) and isinstance(e.value, float) and e.value in (0.0, 1.0):
+            return "(inject_Z (%d)%%Z)" % int(e.value)
+        if isinstance(e, ast.IfExp):
+            return "(if %s then %s else %s)" % (self.test(e.test, env), self.expr(e.body, env), self.expr(e.orelse, env))
+        if isinstance(e, ast.Attribute) and isinstance(e.value, ast.Name) and e.value.id in self.itervars:
+            if e.attr in self.child_fields:
+                return "(%s %s)" % (self.child_fields[e.attr], env[e.value.id])
+            raise TranslationError("unmapped child attribute %r" % e.attr)
+        if isinstance(e, ast.Call) and isinstance(e.func, ast.Name):
+            if e.func.id == "len" and len(e.args) == 1 and self.is_children(e.args[0]):
+                return "(qlen %s)" % self.children
+            if e.func.id == "getattr" and len(e.args) == 2 and isinstance(e.args[0], ast.Name) \
+                    and e.args[0].id in self.itervars and isinstance(e.args[1], ast.Attribute) \
+                    and attr_path(e.args[1]) == self.weight_attr:
+                return "(weight w %s)" % env[e.args[0].id]
+            if e.func.id == "sum" and len(e.args) == 1 and isinstance(e.args[0], ast.GeneratorExp):
+                g = e.args[0]
+                if len(g.generators) != 1 or g.generators[0].ifs or not isinstance(g.generators[0].target, ast.Name) \
+                        or not self.is_children(g.generators[0].iter):
+                    raise TranslationError("unsupported generator expression")
+                x = g.generators[0].target.id
+                v = self.fresh("it_" + x + "_")
+                env2 = dict(env)
+                env2[x] = v
+                self.itervars.add(x)
+                body = self.expr(g.elt, env2)
+                return "(qsum (map (fun %s => %s) %s))" % (v, body, self.children)
+        if isinstance(e, ast.Call) and isinstance(e.func, ast.Attribute) and not e.args and not e.keywords:
+            name = attr_path(e.func)
+            if name in self.funcs:
+                return self.funcs[name][0]
+        if isinstance(e, ast.BinOp) and isinstance(e.op, ast.Div):
+            raise TranslationError("division outside try/except ZeroDivisionError")
+        return super().expr(e, env)
+
+    def guarded_div(self, e, handler_term, env):
+        """[e] where e = A / B, under an except ZeroDivisionError whose value is handler_term"""
+        if not (isinstance(e, ast.BinOp) and isinstance(e.op, ast.Div)):
+            raise TranslationError("try/except ZeroDivisionError around something that is not a division")
+        a, b = self.expr_div_free(e.left, env), self.expr_div_free(e.right, env)
+        return "(if Qeqb %s (inject_Z 0) then %s else Qdiv %s %s)" % (b, handler_term, a, b)
+
+    def expr_div_free(self, e, env):
+        return self.expr(e, env)
+
+    def unguarded_div(self, e, env):
+        """A / B where B is known to be non-zero at this point (inside the loop over a non-empty list)"""
+        if isinstance(e, ast.BinOp) and isinstance(e.op, ast.Div):
+            return "(Qdiv %s %s)" % (self.expr(e.left, env), self.expr(e.right, env))
+        return self.expr(e, env)
+
+    @staticmethod
+    def zero_div_handler(t):
+        return (isinstance(t, ast.Try) and len(t.handlers) == 1 and not t.orelse and not t.finalbody
+                and isinstance(t.handlers[0].type, ast.Name) and t.handlers[0].type.id == "ZeroDivisionError"
+                and t.handlers[0].name is None and len(t.body) == 1 and len(t.handlers[0].body) == 1)
+
+    def block(self, stmts, env, kind):
+        if stmts:
+            s, rest = stmts[0], stmts[1:]
+            if self.zero_div_handler(s) and isinstance(s.body[0], ast.Return) and isinstance(s.handlers[0].body[0], ast.Return):
+                if kind != "value" or rest:
+                    raise TranslationError("unsupported try/except position")
+                return self.guarded_div(s.body[0].value, self.expr(s.handlers[0].body[0].value, env), env)
+            if isinstance(s, ast.For):
+                if s.orelse or not isinstance(s.target, ast.Name) or not self.is_children(s.iter) or len(s.body) != 1:
+                    raise TranslationError("unsupported for loop")
+                x = s.target.id
+                v = self.fresh("it_" + x + "_")
+                env2 = dict(env)
+                env2[x] = v
+                self.itervars.add(x)
+
+                def child_write(a):
+                    return (isinstance(a, ast.Assign) and len(a.targets) == 1 and isinstance(a.targets[0], ast.Attribute)
+                            and isinstance(a.targets[0].value, ast.Name) and a.targets[0].value.id == x
+                            and a.targets[0].attr == "demand")
+                b = s.body[0]
+                if child_write(b):
+                    val = self.unguarded_div(b.value, env2)
+                elif self.zero_div_handler(b) and child_write(b.body[0]) and child_write(b.handlers[0].body[0]):
+                    val = self.guarded_div(b.body[0].value, self.unguarded_div(b.handlers[0].body[0].value, env2), env2)
+                else:
+                    raise TranslationError("unsupported loop body")
+                return "(let st := W_children st (map (fun %s => set_cdemand %s %s) %s) in\n   %s)" % (
+                    v, v, val, self.children, self.block(rest, env, kind))
+        return super().block(stmts, env, kind)
